@@ -33,7 +33,8 @@ from pyvc.symexec import Engine, Obligation, Outcome  # noqa: E402
 from pyvc.values import (TAny, TBool, TInt, TNone, TNStr, TOpt, TRec, TSeq, TTup, Unsupported, V, VAny, VBool,  # noqa: E402
                          VInt, VNone, VNStr, VOpt, VRec, VSeq, VTup, parse_type)
 
-TIMEOUT_MS = int(os.environ.get("PYVC_TIMEOUT_MS", "60000"))
+TIMEOUT_MS = int(os.environ.get("PYVC_TIMEOUT_MS", "120000"))     # full budget of the in-process solver
+FIRST_MS = int(os.environ.get("PYVC_FIRST_MS", "15000"))           # first attempt before the portfolio
 LEN_CAP = 12
 
 
@@ -116,16 +117,31 @@ def run_external(smt2: str, timeout_s: int = int(os.environ.get("PYVC_EXT_TIMEOU
         fh.write(smt2)
         path = fh.name
     try:
+        # both external solvers run concurrently; the first definite answer wins
+        procs = []
         for name, cmd in (("cvc5-1.0.3", ["/usr/bin/cvc5", f"--tlimit={timeout_s * 1000}", "--strings-exp", path]),
                           ("z3-4.8.12", ["/usr/bin/z3", f"-T:{timeout_s}", path])):
             try:
-                r = subprocess.run(cmd, capture_output=True, text=True, timeout=timeout_s + 5)
-                out = r.stdout.strip().splitlines()
-                if out and out[0] in ("sat", "unsat"):
-                    return out[0], name
+                procs.append((name, subprocess.Popen(cmd, stdout=subprocess.PIPE, stderr=subprocess.DEVNULL, text=True)))
             except Exception:
                 continue
-        return "unknown", "none"
+        deadline = time.time() + timeout_s + 5
+        verdict, backend = "unknown", "none"
+        pending = list(procs)
+        while pending and time.time() < deadline and verdict == "unknown":
+            for name, pr in list(pending):
+                if pr.poll() is not None:
+                    pending.remove((name, pr))
+                    out = (pr.stdout.read() or "").strip().splitlines()
+                    if out and out[0] in ("sat", "unsat"):
+                        verdict, backend = out[0], name
+                        break
+            else:
+                time.sleep(0.05)
+        for name, pr in procs:
+            if pr.poll() is None:
+                pr.kill()
+        return verdict, backend
     finally:
         os.unlink(path)
 
@@ -225,7 +241,7 @@ def _solve_one(o: Obligation, eng: Engine) -> Dict[str, Any]:
         res.update(verdict="proved", backend="syntactic", time_s=0.0)
         return res
     s = z3.Solver()
-    s.set("timeout", TIMEOUT_MS if o.kind != "cover" else 3000)
+    s.set("timeout", FIRST_MS if o.kind != "cover" else 3000)
     for a in eng.axioms:
         s.add(a)
     for h in o.hyps:
@@ -242,9 +258,33 @@ def _solve_one(o: Obligation, eng: Engine) -> Dict[str, Any]:
         return res
     verdict = str(r)
     if r == z3.unknown:
+        # portfolio: the short first attempt was undecided -> the two external solvers (concurrently), then the
+        # in-process solver again with the full budget
         v2, b2 = run_external(s.to_smt2())
         if v2 != "unknown":
             verdict, backend = v2, b2
+        else:
+            s.set("timeout", TIMEOUT_MS)
+            r = s.check()
+            verdict = str(r)
+            seed_try = 0
+            while r == z3.unknown and seed_try < 3:
+                # quantifier instantiation is sensitive to the solver's random choices: a fresh solver with another
+                # seed (same query, same budget) -- `unsat` and `sat` remain what they are, only `unknown` is retried
+                seed_try += 1
+                s2 = z3.Solver()
+                s2.set("timeout", TIMEOUT_MS // 2)
+                s2.set("random_seed", 17 * seed_try)
+                for a in eng.axioms:
+                    s2.add(a)
+                for h in o.hyps:
+                    s2.add(h)
+                s2.add(z3.Not(o.goal))
+                r = s2.check()
+                verdict = str(r)
+                if r != z3.unknown:
+                    s = s2
+                    backend = f"z3-5.1.0 (seed {17 * seed_try})"
     if verdict == "unsat":
         res.update(verdict="proved", backend=backend, time_s=time.time() - t0)
         return res
